@@ -132,7 +132,12 @@ def log_der_13(z, nstop, eps1 = 1e-3, eps2 = 1e-16):
     dn3 = zeros(nstop+1, dtype = 'complex128')
     psixi = zeros(nstop+1, dtype = 'complex128')
     dn3[0] = 1.j
-    psixi[0] = -1j*exp(1.j*z)*sin(z)
+    if z.imag > 300.:
+        # sin(z) overflows beyond Im(z) ~ 710 although the product is finite:
+        # -i exp(iz) sin(z) = (1 - exp(2iz))/2
+        psixi[0] = 0.5*(1. - exp(2.j*z))
+    else:
+        psixi[0] = -1j*exp(1.j*z)*sin(z)
     for dindex in arange(1, nstop+1):
         # Mackowski eqn 63
         psixi[dindex] = psixi[dindex-1] * ( (dindex/z) - dn1[dindex-1]) * (
